@@ -18,8 +18,18 @@ SEQS = [[0], [1], [2]] + [[a, b] for a in range(3) for b in range(3)]
 
 
 def jv(v):
+    import decimal
+    import fractions
     if isinstance(v, bool):
         return {"bool": v}
+    if isinstance(v, float):
+        return {"float": v}
+    if isinstance(v, complex):
+        return {"complex": [v.real, v.imag]}
+    if isinstance(v, decimal.Decimal):
+        return {"decimal": str(v)}
+    if isinstance(v, fractions.Fraction):
+        return {"fraction": [v.numerator, v.denominator]}
     if isinstance(v, int):
         return {"int": v}
     if isinstance(v, list):
@@ -35,6 +45,16 @@ def unjv(v):
             return v["bool"]
         if "list" in v:
             return [unjv(x) for x in v["list"]]
+        if "float" in v:
+            return float(v["float"])
+        if "complex" in v:
+            return complex(*v["complex"])
+        if "decimal" in v:
+            import decimal
+            return decimal.Decimal(v["decimal"])
+        if "fraction" in v:
+            import fractions
+            return fractions.Fraction(*v["fraction"])
     return v
 
 
@@ -62,6 +82,11 @@ def generate(rng, tier):
     near = [-1, 0, 13, 99, 10 ** 17, "0", "13", "00", "000012x", "{jan}", '"1"', '"jan"', "{1}", "", " jan", "jan ", "janu",
             "ja", "sept", "Sept.", "1.0", "+1", "-1", "1 ", "x", "maybe", "marc", "decembe", "١", "²", "1²",
             "١٢", "１", None, ["jan"], [], "JAN", "İan", "maſ", "MAY", "may", "May"]
+    # numbers that EQUAL a month number but are neither int nor str: not month spellings, must come back unchanged
+    import decimal
+    import fractions
+    near += [3.0, 12.0, 1.0, 2.5, 0.0, 13.0, float("nan"), decimal.Decimal(3), decimal.Decimal("12.0"), fractions.Fraction(3),
+             fractions.Fraction(24, 2), complex(3, 0), complex(0, 1)]
     for v in near:
         vals.append(("near", v))
     # no-raise stream: arbitrary unicode, incl. isdigit code points
@@ -171,6 +196,8 @@ def impl(case):
     # model instances: ASCII lower, ASCII decimals
     if isinstance(v, str) and (not enc.lower_is_ascii_only(v) or (v.isdecimal() and not v.isascii())):
         rec["skip"] = True
+    if not isinstance(v, (str, int, list, type(None))):
+        rec["skip"] = True                     # value types outside the model's value universe: Python oracle only
     # ---- oracle (property statement, independent reference tables)
     ok, detail = True, ""
     if len(lib.blocks) != 1 or type(blk).__name__ != "Entry":
@@ -185,7 +212,7 @@ def impl(case):
         else:
             got = fs[pos].value
             exp = expected(inp["mws"][-1], v)
-            if not (type(got) is type(exp) and got == exp):
+            if not (type(got) is type(exp) and (got == exp or (got != got and exp != exp))):
                 ok, detail = False, "month value %r through %r gave %r (%s), expected %r" % (v, inp["mws"], got, type(got).__name__, exp)
         others = [(f.key, f.value) for i, f in enumerate(fs) if i != pos]
         orig = [(f.key, f.value) for i, f in enumerate(fields) if i != pos]
